@@ -311,6 +311,12 @@ def eval_backward(c, rec):
         unh = keypool.sp(16, signer.pub.keyid)
         t.kind, t.tprimary, t.tsubkey, st_ = 'subkey', pub.body, signer.pub.body, 0x19
         t.signer_body = signer.pub.body
+    noissuer = c['created'] % 4 == 3
+    if noissuer:
+        # RFC 4880 makes only the creation time mandatory: the signer names no issuer at all, or the wild-card key id; the caller hands the
+        # signature to the key that made it
+        hashed = keypool.sp(2, wire.u32(c['created'])) + extra
+        unh = keypool.sp(16, bytes(8)) if c['created'] % 8 == 7 else b''
     try:
         t.sig = rsig.sign(signer, st_, c['halg'], t.ref_subject(), hashed, unh)
     except wire.WireError as e:
@@ -325,8 +331,11 @@ def eval_backward(c, rec):
         raise harness.HarnessError('reference does not verify its own signature (%s)' % label)
     v, det = t.pg_verdict()
     if v != 'truthy':
-        rec.finding('bwd/pgpy-rejects', '%s/%s' % (label, v), c, repr(det)[:300])
+        rec.finding('bwd/pgpy-rejects', ('no-issuer-named/%s' % v) if noissuer else '%s/%s' % (label, v), c, repr(det)[:300])
         return
+    if noissuer:
+        rec.note('bwd/no-issuer-named')
+        return        # (inside a message or a key nothing says which key to try it with)
     # carried inside a message / key built by the reference
     import pgpy
     try:
